@@ -10,6 +10,7 @@
 //! while their TTL lasts (TTL is ZERO or 1 h, never timed), nothing is cached
 //! after a failure, and the parsed answer does not depend on TCP segmentation.
 
+mod cdn;
 mod mock;
 
 use cascette_formats::bpsv::{BpsvDocument, BpsvValue};
@@ -918,7 +919,7 @@ fn rows_st() -> impl Strategy<Value = u8> {
 fn http_st(stall: bool) -> BoxedStrategy<HttpBeh> {
     let base = prop_oneof![
         5 => (any::<u8>(), rows_st(), any::<bool>()).prop_map(|(doc, rows, chunked)| HttpBeh::Answer { doc, rows, chunked }),
-        4 => (proptest::sample::select(vec![500u16, 502, 503, 504, 501, 505, 507, 508, 511, 520, 599, 429, 429, 429]), proptest::option::of(0u16..2), proptest::bool::weighted(0.25))
+        4 => (proptest::sample::select(vec![500u16, 502, 503, 504, 501, 505, 507, 508, 511, 520, 599, 429, 429, 429]), proptest::option::of(prop_oneof![3 => 0u16..2, 2 => 1000u16..1007]), proptest::bool::weighted(0.25))
             .prop_map(|(code, retry_after, bpsv_body)| HttpBeh::Status { code, retry_after: if code == 429 || code == 503 { retry_after } else { None }, bpsv_body }),
         3 => (proptest::sample::select(vec![400u16, 401, 403, 404, 410]), proptest::bool::weighted(0.25))
             .prop_map(|(code, bpsv_body)| HttpBeh::Status { code, retry_after: None, bpsv_body }),
@@ -1127,6 +1128,18 @@ fn main() {
     drain_infra(&mut ck);
 
     ck.run(Section::pbt("tcp-split-random", tier.pick(600, 40_000), split_random_st, |c: &SplitCase| stable("tcp-split-random", || check_split(c))).shards(12).shrink_iters(300));
+    drain_infra(&mut ck);
+
+    // CdnClient::download: what is not the content is never stored
+    ck.run(
+        Section::enumerate(
+            "cdn-download-cache",
+            "first answer of the loopback CDN in {content, 300, 301/308/399 without Location, 304, 305, 306, 400, 403, 404, 410, 416, 429 + Retry-After: 0, 500, 503, connection closed inside the body} x memory cache / cache directory x second download by the same / by a new client x content type: once the server is healthy the second download asks it and returns the content; content is served from the cache without a request",
+            || Box::new(cdn::all_cases().into_iter()),
+            |c: &cdn::CdnCase| stable("cdn-download-cache", || cdn::check(c)),
+        )
+        .shards(16),
+    );
     drain_infra(&mut ck);
 
     if tier == vh_engine::Tier::Thorough || ck.is_replay() {
